@@ -26,7 +26,7 @@ deriving Inhabited
 /-- read-only compiler context -/
 structure PC where
   pat : List Nat
-  fl : Flags
+  fl : CFlags
   env : Env
 
 def PC.len (c : PC) : Nat := c.pat.length
